@@ -115,6 +115,17 @@ def catalogue(ck):
     # the same module objects at several positions: every application must be compiled
     add("shared-dense", lambda: (lambda d: S(d, d, G(2)))(D(4, 4)))
     add("shared-pool", lambda: (lambda p_: S(C(5, 1, 2), p_, C(3, 2, 2, rf=1), p_, F(), G(2)))(P(2, 1, 0)))
+    # containers whose forward is not the plain chain
+    class OrChain(torch.nn.Sequential):
+        def forward(self, x):
+            y = super().forward(x)
+            return torch.maximum(y, x) if y.shape == x.shape else y
+
+    class PlainSub(torch.nn.Sequential):      # a subclass that does NOT override forward (like the library's own model classes) is fine
+        pass
+    add("container-own-forward", lambda: OrChain(D(4, 4), D(4, 4)))
+    add("container-plain-subclass", lambda: PlainSub(D(4, 6), D(6, 4), G(2)))
+    add("container-modulelist", lambda: torch.nn.ModuleList([D(4, 6), D(6, 4)]))
     add("empty", lambda: S())
     add("identity-only", lambda: S(I(), I()))
     return cases
@@ -144,6 +155,9 @@ def run(ck: Check):
                 continue
             mods = list(model)
             kinds = [mkind(m) for m in mods]
+            if type(model).forward is not torch.nn.Sequential.forward:
+                # the container itself is not a plain chain (a Sequential subclass overriding forward, a ModuleList): foreign
+                kinds = [f'(MForeign "container:{type(model).__name__}")'] + kinds
             W = rng.choice([8, 16, 32, 64])
             case = {"name": name, "kinds": kinds, "W": W}
             ck.case(case, nontrivial=len(kinds) > 1, kind=name.split("-")[0])
